@@ -42,6 +42,8 @@ pub struct Checks {
     pub last_checked: BTreeMap<(&'static str, ActorID), cid::Cid>,
     pub cached_active: BTreeMap<ActorID, Pow>,
     pub prev_locked: BTreeMap<ActorID, BigInt>,
+    /// power granted at genesis to an idle miner (fixture), not backed by sectors
+    pub phantom: BTreeMap<ActorID, Pow>,
     pub registry: std::rc::Rc<super::verified::RegistryView>,
     pub last_c10: BTreeMap<ActorID, (ActorID, cid::Cid, Option<cid::Cid>)>,
 }
